@@ -180,6 +180,9 @@ func (s *solver) readLine() string {
 		if line == "" {
 			continue
 		}
+		if s.log != nil {
+			io.WriteString(s.log, "; <- "+line+"\n")
+		}
 		return line
 	}
 }
